@@ -69,6 +69,16 @@ def gen_cases(ctx):
                 ops.append({"o": k, "is": [rng.randrange(len(pool)) for _ in range(rng.randrange(0, 4))], "sn": n if rng.random() < 0.8 else n + 1})
             else: ops.append({"o": k})
         cases.append({"op": "circuit", "mode": "history", "n": n, "pool": pool, "ops": ops})
+    # histories of Circuit::add_gate / add_gates on one circuit object: a rejected group (its offending gate first, in the middle or last)
+    # commits nothing
+    for _ in range(60 if not ctx.thorough() else 300):
+        n = rng.randrange(1, 6)
+        pool = [rand_any_gate(rng, n, us, bad=(rng.random() < 0.25)) for _ in range(rng.randrange(3, 9))]
+        ops = []
+        for _ in range(rng.randrange(1, 12)):
+            if rng.random() < 0.4: ops.append({"o": "add_gate", "i": rng.randrange(len(pool))})
+            else: ops.append({"o": "add_gates", "is": [rng.randrange(len(pool)) for _ in range(rng.randrange(0, 5))]})
+        cases.append({"op": "circuit", "mode": "circ_history", "n": n, "pool": pool, "ops": ops})
     return cases
 
 def cq_gate(d, orc, rb):
@@ -118,7 +128,7 @@ def brief(c):
     if c["mode"] == "exec":
         return {"mode": "exec", "n": c["n"], "circuit_width": c["cn"], "len": len(c["gates"]), "split": c["split"],
                 "gates": [[g["g"], g.get("kind", g.get("basis", "")), targets_of(g)] for g in c["gates"][:10]]}
-    return {"mode": "history", "n": c["n"], "ops": [o["o"] for o in c["ops"]][:40], "pool": len(c["pool"])}
+    return {"mode": c["mode"], "n": c["n"], "ops": [o["o"] for o in c["ops"]][:40], "pool": len(c["pool"])}
 
 def run_cases(ctx, cases):
     results = run_harness(cases, nproc=8)
@@ -127,7 +137,7 @@ def run_cases(ctx, cases):
         if r.get("r") != "ok": continue
         if c["mode"] == "exec":
             terms.append(exec_term(c, r)); idx.append((i, "e"))
-        else:
+        elif c["mode"] == "history":
             for j, t in enumerate(hist_terms(c, r)):
                 terms.append(t); idx.append((i, "h%d" % j))
     outs = coq_eval(ctx, IMPORTS, terms)
@@ -168,6 +178,24 @@ def judge(ctx, cases, results, codes):
             elif not (code & 1) or not (code & 2) or not (code & 4) or not (code & 8):
                 ctx.violations.append(("execute / trace differ from applying the gates one after another in insertion order", {"case": c, "brief": b, "verdict_bits": code,
                                        "exec": e.get("r"), "exec_e": e.get("e")}))
+        elif c["mode"] == "circ_history":
+            if r.get("r") != "ok": continue
+            # the rule of C06_with_gates / add_gates (validate, then commit): a group is accepted iff every gate addresses qubits below the
+            # width, and a rejected operation leaves the circuit as it was
+            cls = r["classes"]; held = []
+            okall = True
+            for o, ob in zip(c["ops"], r["outs"]):
+                ids = [o["i"]] if o["o"] == "add_gate" else list(o["is"])
+                fits = all(q < c["n"] for i2 in ids for q in sum(targets_of(c["pool"][i2]), []))
+                want = held + [cls[i2] for i2 in ids] if fits else held
+                if ob["ok"] != fits or ob["ids"] != want:
+                    okall = False
+                    ctx.violations.append(("Circuit::%s: %s" % (o["o"], "a rejected group left gates behind (the circuit must be unchanged)" if (not fits and not ob["ok"]) else
+                                           "accepted / rejected against the rule 'every target and control below the width'"),
+                                           {"case": c, "brief": b, "operation": o, "gates_after": ob["ids"], "expected": want, "ok": ob["ok"]}))
+                    break
+                held = want
+            if okall: stats["circuit_histories_ok"] = stats.get("circuit_histories_ok", 0) + 1
         else:
             if r.get("r") != "ok": continue
             j = 0
